@@ -112,6 +112,33 @@ CHECKS = {
         "documented pair-symbol formulas; exhaustive over shipped classes "
         "for the enumerated layouts."),
   technique="exhaustive enumeration over shipped classes plus property-based generation (Hypothesis) with an independent requirement oracle"),
+ 'C04': dict(
+  text=("Programs = shipped Integrator x shipped IntegratorStep pairs it can "
+        "drive, and user-defined integrators (1-5 stages, py_stage hooks, "
+        "update_nnps=False, two equation sets, out-of-order stages) with "
+        "different steppers per array, with or without a periodic domain; "
+        "compiled through SPHCompiler (one JIT compile per program) and "
+        "stepped 1-3 times on generated states; arrays (bitwise for "
+        "arithmetic-only steppers), post-stage callback arguments and "
+        "py_stage logs are compared with a reference that calls the "
+        "integrator's one_timestep method literally on a Python driver."),
+  note=("Shipped steppers are exercised on generic double stride-1 arrays; "
+        "those that do not compile or are undefined there are listed as "
+        "skipped. Quick rotates through the program list with the seed."),
+  technique="differential property-based testing: compiled integrator vs. literal execution of one_timestep by a reference driver"),
+ 'C09': dict(
+  text=("Closed systems of 1-2 mutually interacting arrays with generated "
+        "positions (incl. coincident pairs), masses, densities, pressures, "
+        "velocities and per-particle h are evaluated with each of 17 shipped "
+        "pair-symmetric momentum equations (selected per evaluation), every "
+        "kernel (rotating), six neighbour algorithms and dims 1-3; the "
+        "oracle is the conservation law: |sum m a| <= 1e-12 sum m|a|, the "
+        "same for angular momentum of the central-force terms, and positive "
+        "summation density."),
+  note=("The list of pair-symmetric equations is fixed in the check with the "
+        "reason each qualifies (wc.edac.MomentumEquationPressureGradient is "
+        "excluded: it subtracts the destination's own average pressure)."),
+  technique="property-based testing (Hypothesis) with a physical invariant (metamorphic a<->b symmetry) as oracle"),
 }
 
 NOT_APPLICABLE = [
